@@ -24,12 +24,13 @@ pair), pairs with both labels, hyper-parameters at documented defaults except it
 data-dependent feasibility limits (n_chunks, n_basis).  MMC only with diagonal=False.  'lda' init only with
 n_components <= n_classes - 1 (the data are generated with enough classes).
 
-Outside the quantifier / not demanded (skipped, counted in `rule`): SDML's documented RuntimeError when it has itself
-announced (ConvergenceWarning) that the graphical-lasso input is not PSD; cases that exceed the per-case time limit.
+Outside the quantifier / not demanded (skipped, counted by reason in `rule`): SDML's documented RuntimeError ("There was a
+problem in SDML when using ... graphical lasso solver": the external solver gave up or SDML's own vetting rejected its
+result -- a declared exit, see C13), with or without SDML's prior ConvergenceWarning that the solver input is not PSD;
+cases that exceed the per-case time limit.
 """
 import multiprocessing
 import signal
-import time
 import warnings
 import zlib
 
@@ -320,9 +321,9 @@ def _oracle(cls, est, ret, d, nc_given, Xtest, recorded):
         asym = np.abs(M - M.T).max()
         ev = np.linalg.eigvalsh((M + M.T) / 2)
         if asym > 1e-9 * scale:
-          fails.append(('M-symmetric-psd', 'max |M - M.T| = %r at scale %r' % (asym, scale), 'M not symmetric'))
+          fails.append(('M-symmetric-psd', 'max |M - M.T| = %.3g at scale %.3g' % (asym, scale), 'M not symmetric'))
         elif ev.min() < -1e-9 * max(np.abs(ev).max(), 1e-300):
-          fails.append(('M-symmetric-psd', 'min eigenvalue %r (max %r)' % (ev.min(), ev.max()), 'M not PSD'))
+          fails.append(('M-symmetric-psd', 'min eigenvalue %.3g (max %.3g)' % (ev.min(), ev.max()), 'M not PSD'))
     except Exception as e:
       fails.append(('M-symmetric-psd', 'get_mahalanobis_matrix raised %s: %s' % (type(e).__name__, str(e)[:200]),
                     'get_mahalanobis_matrix raises'))
@@ -344,8 +345,14 @@ def _oracle(cls, est, ret, d, nc_given, Xtest, recorded):
 
 
 def _sdml_documented_failure(cls, exc, recorded):
-  return (cls.startswith('SDML') and isinstance(exc, RuntimeError) and 'There was a problem in SDML' in str(exc)
-          and any('not positive semi-definite' in str(w.message) for w in recorded))
+  """SDML vets the result of the external graphical-lasso solver and converts a solver failure / non-SPD / non-finite
+  result into a RuntimeError with a fixed message (a declared exit, see C13): not a C03 violation, but counted.
+  -> None, or the reason for skipping"""
+  if not (cls.startswith('SDML') and isinstance(exc, RuntimeError) and 'There was a problem in SDML' in str(exc)):
+    return None
+  if any('not positive semi-definite' in str(w.message) for w in recorded):
+    return 'SDML announced a non-PSD graphical-lasso input and raised its documented RuntimeError'
+  return 'SDML raised its documented RuntimeError (external graphical-lasso solver gave up) without the non-PSD announcement'
 
 
 def _evaluate(spec):
@@ -358,8 +365,11 @@ def _evaluate(spec):
   if refit_from is not None:
     steps.append(refit_from)
   steps.append(d)
-  old = signal.signal(signal.SIGALRM, _alarm)
-  signal.alarm(CASE_TIMEOUT.get(tier, 50))
+  try:      # safety net only (a fit that does not terminate must not hang the check); needs the main thread
+    old = signal.signal(signal.SIGALRM, _alarm)
+    signal.alarm(CASE_TIMEOUT.get(tier, 50))
+  except ValueError:
+    old = None
   try:
     with warnings.catch_warnings(record=True) as recorded:
       warnings.simplefilter('always')
@@ -377,11 +387,11 @@ def _evaluate(spec):
           est.set_params(**params)
         del recorded[:]
         try:
-          with np.errstate(all='warn'):
-            ret = est.fit(*args)
+          ret = est.fit(*args)
         except Exception as e:
-          if _sdml_documented_failure(cls, e, recorded):
-            return 'skip', 'SDML announced a non-PSD graphical-lasso input and raised its documented RuntimeError'
+          why = _sdml_documented_failure(cls, e, recorded)
+          if why:
+            return 'skip', why
           if step + 1 < len(steps):
             return 'skip', 'first fit of a refit case raised (reported by the single-fit case)'
           return 'fail', dict(tag='fit-returns', observed='fit raised %s: %s' % (type(e).__name__, str(e)[:300]),
@@ -391,8 +401,9 @@ def _evaluate(spec):
   except _Timeout:
     return 'skip', 'time limit'
   finally:
-    signal.alarm(0)
-    signal.signal(signal.SIGALRM, old)
+    if old is not None:
+      signal.alarm(0)
+      signal.signal(signal.SIGALRM, old)
   if not fails:
     return 'ok', None
   inp = _describe_input(cls, params, args, recipe)
@@ -461,7 +472,7 @@ def _worker(i):
     return _evaluate(_WORK[i])
 
 
-def _run_specs(specs, jobs=16, stop_at_first_failure=False):
+def _run_specs(specs, jobs=16, stop_at_first_failure=False, wanted_tags=None):
   global _WORK
   _WORK = specs
   results = [None] * len(specs)
@@ -474,7 +485,7 @@ def _run_specs(specs, jobs=16, stop_at_first_failure=False):
   try:
     for i, r in zip(order, pool.imap(_worker, order, chunksize=1)):
       results[i] = r
-      if stop_at_first_failure and r[0] == 'fail':
+      if stop_at_first_failure and r[0] == 'fail' and (not wanted_tags or _pick(r[1], wanted_tags)):
         break
   finally:
     pool.terminate()
@@ -484,7 +495,6 @@ def _run_specs(specs, jobs=16, stop_at_first_failure=False):
 
 
 def run(tier, seed):
-  t0 = time.time()
   specs = list(_specs(tier, seed))
   results = _run_specs(specs)
   vio = {}
@@ -506,28 +516,57 @@ def run(tier, seed):
   return dict(
     cases=len(specs), distinct_nontrivial=len(distinct),
     rule='17 estimators x Cartesian product of documented option values (LMNN/NCA init in {auto,pca,identity,random,array,lda}, MLKR without lda; '
-         'ITML/LSML/SDML prior and MMC init in {identity,covariance,random,SPD array}, MMC diagonal=False; LFDA embedding_type x k in {None,1..d-1}; '
-         'RCA/RCA_Supervised; SCML basis in {triplet_diffs,array}, SCML_Supervised also lda, n_basis in {None,int}; n_components in {None,1..d}) x '
+         'ITML/LSML/SDML prior and MMC init in {identity,covariance,random,SPD array}, MMC diagonal=False, SDML balance_param in {0.5,1e-5}; '
+         'LFDA embedding_type x k in {None,1..d-1}; RCA/RCA_Supervised; SCML basis in {triplet_diffs,array}, SCML_Supervised also lda, '
+         'n_basis in {None,6d,d}, beta in {1e-5,0.1}; n_components in {None,1..d}) x '
          'generated well-formed datasets, plus a refit of every estimator on points with a different n_features; every case is a real fit, so all are '
          'non-trivial; distinct = distinct (class, options, n_features, n_classes, repetition); skipped (outside the quantifier): %s' % (skipped or 'none'),
     bound='n_features in %s, n_samples in [max(4d,4c), max(4d,4c)+d], 2..d+1 classes of >= 4 members, %d dataset(s) per configuration, '
-          'iteration caps LMNN 12 / NCA 8 / MLKR 8 / ITML 25 / LSML 10 / MMC 8 / SCML 300; wall %.0fs' % (list(D_VALUES[t]), REPS[t], time.time() - t0),
+          'iteration caps LMNN 12 / NCA 8 / MLKR 8 / ITML 25 / LSML 10 / MMC 8 (max_proj default) / SCML 300' % (list(D_VALUES[t]), REPS[t]),
     standin_samples=[specs[i][5] for i in range(0, len(specs), step)][:8],
     violations=sorted(vio.values(), key=lambda v: (v['clause'], v['signature'])))
 
 
+CLAUSE_HINTS = (('n_features_in', 'n_features_in'), ('dtype', 'components-real-dtype'), ('complex', 'components-real-dtype'),
+                ('finite', 'components-finite'), ('ndim', 'components-2d-array'), ('shape', 'components-shape'),
+                ('dim', 'components-shape'), ('n_components', 'components-shape'), ('transform', 'transform-shape'),
+                ('psd', 'M-symmetric-psd'), ('spd', 'M-symmetric-psd'), ('symm', 'M-symmetric-psd'), ('self', 'fit-returns-self'),
+                ('warn', 'lowrank-warned'), ('wf', 'fit-returns'), ('exit', 'fit-returns'), ('raise', 'fit-returns'))
+
+
+def _pick(payload, wanted_tags):
+  """the failing clause of a case that matches one of wanted_tags (None if there is none)"""
+  for f in [payload] + payload.get('more', []):
+    if f['tag'] in wanted_tags:
+      return f
+  return None
+
+
 def replay_clause(cid, fail, seed):
-  """first failing case (smallest n_features first) that exercises the module / class named in cid, else any failing case"""
+  """first failing case (smallest n_features first) that exercises the module / class named in cid -- preferring a failure
+  of the run-time clause the obligation's name points to --, else any failing case of the property"""
   mod = cid.split(':')[0].split('/')[-1]
-  fn = cid.split(':', 1)[1].split('[')[0] if ':' in cid else ''
-  specs = [s for s in _specs('replay', seed)]
+  rest = cid.split(':', 1)[1] if ':' in cid else cid
+  fn = rest.split('[')[0]
+  low = rest.lower()
+  wanted_tags = [tag for word, tag in CLAUSE_HINTS if word in low.split('/')[-1]] or [tag for word, tag in CLAUSE_HINTS if word in low]
+  specs = list(_specs('replay', seed))
   wanted = [s for s in specs if MODULE[s[0]] == mod]
   by_class = [s for s in wanted if s[0] in fn or s[0].split('_')[0] in fn]
-  for group in (by_class, wanted, specs if not wanted else []):
+  fallback = None
+  for group in (by_class, wanted if len(wanted) != len(by_class) else [], specs if not wanted else []):
     if not group:
       continue
-    res = _run_specs(group, stop_at_first_failure=True)
+    res = _run_specs(group, stop_at_first_failure=True, wanted_tags=wanted_tags)
     for s, r in zip(group, res):
       if r is not None and r[0] == 'fail':
-        return dict(failing_input=r[1]['input'], observed='%s: %s' % (r[1]['tag'], r[1]['observed']))
-  return dict(note='no failing input among the quick stand-in cases for %s' % (mod or cid))
+        f = _pick(r[1], wanted_tags) if wanted_tags else r[1]
+        if f is not None:
+          return dict(failing_input=f['input'], observed='%s: %s' % (f['tag'], f['observed']))
+        if fallback is None:
+          fallback = dict(failing_input=r[1]['input'],
+                          observed='(no case fails the run-time clause this obligation points to; another clause of C03 fails here) '
+                                   '%s: %s' % (r[1]['tag'], r[1]['observed']))
+  if fallback is not None:
+    return fallback
+  return dict(note='no failing input among the quick stand-in cases for %s' % (mod if wanted else 'any estimator'))
